@@ -229,7 +229,7 @@ def fcbo(model, R, key, S_):
             sides = [d.left, d.right]
             cur_side = [x for x in sides if name_is(x, curT)]
             col = [x for x in sides if isinstance(x, ast.Subscript)]
-            ok = (len(cur_side) == 1 and len(col) == 1 and src(col[0].value) == f'{ctx}.{VEC_OF_OTHER[S_]}' and name_is(col[0].slice, j))
+            ok = (len(cur_side) == 1 and len(col) == 1 and src(X(col[0].value)) == f'{ctx}.{VEC_OF_OTHER[S_]}' and name_is(col[0].slice, j))
     R.check(ok, rule, func, newT_def[0] if newT_def else pc, f'{tag}: other-side set restricted by column j', f'{curT} & {ctx}.{VEC_OF_OTHER[S_]}[{j}]', found)
     newT = src(newT_node)
 
